@@ -403,6 +403,7 @@ func main() {
 		if n == 0 {
 			nocrashOne(r, eng, text, "replay")
 		}
+		vk.ReplayRan()
 		fmt.Printf("replayed %d program(s)\n", n)
 		r.Finish()
 	}
